@@ -214,7 +214,7 @@ func (p *Prog) isModuleFuncName(name string) int {
 	if moduleFuncNames == nil {
 		moduleFuncNames = map[string]bool{}
 		for _, fn := range p.Funcs {
-			moduleFuncNames[fn.Name()] = true
+			moduleFuncNames[fnName(fn)] = true
 			for _, b := range fn.Blocks {
 				for _, in := range b.Instrs {
 					if ci, ok := in.(ssa.CallInstruction); ok {
@@ -222,7 +222,7 @@ func (p *Prog) isModuleFuncName(name string) int {
 						if cc.IsInvoke() {
 							moduleFuncNames[cc.Method.Name()] = true
 						} else if f := cc.StaticCallee(); f != nil {
-							moduleFuncNames[f.Name()] = true
+							moduleFuncNames[fnName(f)] = true
 						}
 					}
 				}
